@@ -69,13 +69,30 @@ pub fn example_path( file_path: &PathBuf ) -> Result<PathBuf,String> {
 
 pub fn write( val:String, path: &PathBuf ) -> Result<(), std::io::Error>{
 
-    let mut file = OpenOptions::new()
-        .write(true)
-        .truncate(true)
-        .create(true)
-        .open(path)?;
+    // the whole content goes to a sibling temporary file which is then 
+    // renamed over the target, an interrupted or failed write never 
+    // leaves a truncated file behind
+    let mut tmp_name = path.file_name().map(|n| n.to_os_string()).unwrap_or_default();
+    tmp_name.push(format!(".inter_tmp_{}", std::process::id()));
+    let tmp_path = path.with_file_name(tmp_name);
 
-    write!(file, "{}", val)
+    let result = (|| {
+        let mut file = OpenOptions::new()
+            .write(true)
+            .truncate(true)
+            .create(true)
+            .open(&tmp_path)?;
+
+        write!(file, "{}", val)?;
+        file.sync_all()?;
+        if let Ok(meta) = std::fs::metadata(path) {
+            let _ = std::fs::set_permissions(&tmp_path, meta.permissions());
+        }
+        std::fs::rename(&tmp_path, path)
+    })();
+
+    if result.is_err() { let _ = std::fs::remove_file(&tmp_path); }
+    result
 }
 
 fn write_file( file: syn::File, path: &PathBuf ) -> Result<(), std::io::Error> {
